@@ -423,7 +423,7 @@ fn layer3(kind: &'static str, mode: AccessListMode) -> (u64, Vec<(String, String
                 }
                 let c = ws.as_mut()?;
                 c.send_text(json!({"action": "announce", "info_hash": id20(&hash(h)), "peer_id": id20(&[b'q'; 20]), "left": 1}).to_string());
-                let txt = c.recv_text(3000)?;
+                let txt = c.recv_text(8000)?;
                 let v: serde_json::Value = serde_json::from_str(&txt).ok()?;
                 Some(v.get("failure reason").is_none())
             }
@@ -465,7 +465,7 @@ fn layer3(kind: &'static str, mode: AccessListMode) -> (u64, Vec<(String, String
             _ => {
                 let mut c = WsConn::connect(addr)?;
                 c.send_text(json!({"action": "scrape", "info_hash": id20(&hash(h))}).to_string());
-                let txt = c.recv_text(3000)?;
+                let txt = c.recv_text(8000)?;
                 let v: serde_json::Value = serde_json::from_str(&txt).ok()?;
                 let e = v["files"].get(id20(&hash(h)));
                 Some(e.map(|e| e["complete"].as_u64().unwrap_or(0) + e["incomplete"].as_u64().unwrap_or(0) > 0).unwrap_or(false))
@@ -505,14 +505,19 @@ fn layer3(kind: &'static str, mode: AccessListMode) -> (u64, Vec<(String, String
             // an unanswered announce (loaded machine, broken connection) is repeated: refused announces have no effect and
             // accepted ones are idempotent
             let mut got = announce(h, &mut ws, &mut http);
-            for _ in 0..3 {
+            for _ in 0..6 {
                 if got.is_some() {
                     break;
                 }
                 ws = None;
                 http = None;
-                std::thread::sleep(Duration::from_millis(300));
+                std::thread::sleep(Duration::from_millis(500));
                 got = announce(h, &mut ws, &mut http);
+            }
+            if got.is_none() {
+                // no observation at all (overloaded machine or a tracker that stopped answering): not a verdict on the access list
+                viols.push(("INCONCLUSIVE".into(), format!("[{} mode {}] announce of {:02x} unanswered 7 times", kind, mode_name(mode), h), detail.clone()));
+                continue;
             }
             if got != Some(allowed) {
                 viols.push((
@@ -539,7 +544,18 @@ fn layer3(kind: &'static str, mode: AccessListMode) -> (u64, Vec<(String, String
         }
         for h in [A, B, C] {
             checks += 1;
-            let got = scrape(h);
+            let mut got = scrape(h);
+            for _ in 0..6 {
+                if got.is_some() {
+                    break;
+                }
+                std::thread::sleep(Duration::from_millis(500));
+                got = scrape(h);
+            }
+            if got.is_none() {
+                viols.push(("INCONCLUSIVE".into(), format!("[{} mode {}] scrape of {:02x} unanswered 7 times", kind, mode_name(mode), h), detail.clone()));
+                continue;
+            }
             if got != Some(stored.contains(&h)) {
                 viols.push((
                     format!("accesslist/{}/after-clean", kind),
@@ -637,6 +653,9 @@ pub fn main(args: &Args) -> ! {
     for (c, vs) in res {
         l3 += c;
         for (sig, what, d) in vs {
+            if sig == "INCONCLUSIVE" {
+                machinery_failure(&format!("layer 3 could not observe the tracker: {}", what));
+            }
             run.violation(sig, what, d);
         }
     }
